@@ -98,11 +98,13 @@ Fixpoint last_term (r : list symbol) : option nat :=
               end
   end.
 
-(* stable insertion sort of rule_infos by l_idx (stdex::sort is a bubble sort swapping only on strict <) *)
+(* stable insertion sort of rule_infos by l_idx (stdex::sort is a bubble sort swapping only on strict <, hence stable:
+   rules of one nonterminal keep their order of appearance in rules(...)). fold_right inserts the last rule first, so an
+   element goes BEFORE the elements that are not smaller. *)
 Fixpoint insert_ri (x : rule_info) (l : list rule_info) : list rule_info :=
   match l with
   | [] => [x]
-  | y :: t => if Nat.ltb (ri_l x) (ri_l y) then x :: y :: t else y :: insert_ri x t
+  | y :: t => if Nat.leb (ri_l x) (ri_l y) then x :: y :: t else y :: insert_ri x t
   end.
 Definition sort_ris (l : list rule_info) : list rule_info :=
   fold_right insert_ri [] l.
